@@ -46,6 +46,10 @@ pub enum Kind {
     Batch,
     Error,
     Ok,
+    /// a registration (role by `giant_slack % 4`) whose namespace is far too long: the frame comes
+    /// within `giant_slack` bytes of the frame limit. It has to be refused with an error frame,
+    /// however little room the refusal has left.
+    RegGiantInvalid,
 }
 
 #[derive(Clone, Copy, Debug, Serialize, Deserialize, PartialEq)]
@@ -68,6 +72,8 @@ pub struct Action {
     /// bytes short of the frame limit; the subscriber must stay served
     #[serde(default)]
     pub at_limit_slack: Option<usize>,
+    #[serde(default)]
+    pub giant_slack: u32,
 }
 
 #[derive(Clone, Debug, Serialize, Deserialize)]
@@ -110,6 +116,22 @@ fn frame_of(k: Kind, topic: &TopicName, n: usize) -> Frame {
         Kind::Batch => Frame::BatchMessage(Bytes::from(format!("batch{n}"))),
         Kind::Error => Frame::Error(ErrorPayload { code: 99, message: Bytes::from("peer error") }),
         Kind::Ok => Frame::Ok,
+        Kind::RegGiantInvalid => giant_registration(n as u32),
+    }
+}
+
+fn giant_registration(slack: u32) -> Frame {
+    const MAX: usize = 1_048_576;
+    let pubsub = slack % 4 < 2;
+    // payload = two length-prefixed strings (+ retention and the operation count for pub/sub)
+    let overhead = 8 + 8 + 3 + if pubsub { 16 } else { 0 };
+    let len = MAX - overhead - slack as usize;
+    let topic = TopicName::_create_unchecked(&"a".repeat(len), "abc");
+    match slack % 4 {
+        0 => Frame::RegisterPublisher(PublisherPayload { topic, retention_policy: 0, operations: vec![] }),
+        1 => Frame::RegisterSubscriber(SubscriberPayload { topic, retention_policy: 0, operations: vec![] }),
+        2 => Frame::RegisterReplier(ReplierPayload { topic }),
+        _ => Frame::RegisterRequestor(RequestorPayload { topic }),
     }
 }
 
@@ -119,7 +141,8 @@ pub fn gen_script(rng: &mut Rng) -> FramesScript {
     let n = rng.usize(1, 5);
     let actions = (0..n)
         .map(|_| {
-            let first = if rng.chance(3, 4) { *rng.pick(&[Kind::RegPub, Kind::RegSub, Kind::RegRep, Kind::RegReq]) } else { *rng.pick(ALL_KINDS) };
+            let first = if rng.chance(1, 12) { Kind::RegGiantInvalid } else if rng.chance(3, 4) { *rng.pick(&[Kind::RegPub, Kind::RegSub, Kind::RegRep, Kind::RegReq]) } else { *rng.pick(ALL_KINDS) };
+            let giant_slack = if first == Kind::RegGiantInvalid { rng.usize(0, 300) as u32 } else { 0 };
             let prior = *rng.pick(&[Prior::Fresh, Prior::Fresh, Prior::UsedPubSub, Prior::UsedReqRep]);
             let n_then = *rng.pick(&[0usize, 0, 1, 2, 4]);
             let mut then = vec![];
@@ -132,7 +155,7 @@ pub fn gen_script(rng: &mut Rng) -> FramesScript {
             if at_limit_slack.is_some() {
                 then.clear();
             }
-            Action { prior, first, then, at_limit_slack }
+            Action { prior, first, then, at_limit_slack, giant_slack }
         })
         .collect();
     FramesScript { net: NetCfg::calm(rng.next()), rt_seed: rng.next(), actions }
@@ -229,7 +252,7 @@ async fn scenario(world: Rc<World>, sc: FramesScript) -> AResult<(Vec<ActionRepo
                 }
             }
         }
-        let mut stream = match raw_open(&conn, frame_of(act.first, &topic, 0)).await {
+        let mut stream = match raw_open(&conn, frame_of(act.first, &topic, if act.first == Kind::RegGiantInvalid { act.giant_slack as usize } else { 0 })).await {
             Ok(s) => s,
             Err(e) => {
                 rep.notes.push(format!("could not open stream: {e:#}"));
@@ -423,7 +446,10 @@ pub fn execute(prop: &str, sc: &FramesScript, opts: &ExecOpts) -> Outcome {
                         th.word(rep.served.map(|s| s as u64 + 1).unwrap_or(0));
                         out.fault(&format!("first_frame_{:?}", act.first).to_lowercase());
                         out.fault_n("frames_after_registration", act.then.len() as u64);
-                        let is_reg = role_of(act.first).is_some();
+                        let is_reg = role_of(act.first).is_some() || act.first == Kind::RegGiantInvalid;
+                        if act.first == Kind::RegGiantInvalid {
+                            out.probe("giant_invalid_registration");
+                        }
                         match (&rep.answer, rep.served, rep.refused_after_ok) {
                             (Some(Answer::Ok), Some(false), None) if act.at_limit_slack.is_some() => {
                                 out.violate(
